@@ -29,6 +29,8 @@ plan('C02',
          Job(H, 'eq_order', 'asan', quick=1000, thorough=20000, shards=(4, 16)),
          Job(H, 'eq_order', 'plain', quick=1500, thorough=30000, shards=(2, 16)),
          Job(H, 'eq_order', 'asan', quick=500, thorough=10000, shards=(2, 16), params=dict(headok=1), tag='c02.eq_order_headremove'),
+         Job(H, 'map_convert', 'asan', quick=1200, thorough=30000, shards=(2, 16)),
+         Job(H, 'map_convert', 'plain', quick=1200, thorough=30000, shards=(2, 16)),
      ],
      exhaustive={'quick': True, 'thorough': True},
      assumptions=COMMON_ASSUME + [
